@@ -245,9 +245,8 @@ Section Machine.
         | SYieldFromHole x h =>
             match nth_error hs h with
             | None => bad
-            | Some HDead =>
-                SCont (Done CNormal) (mkAct k (set_opt x VNone env) (a_closing cur)) rest hs
-                      [Enter h; Call h (Send VNone)]
+            | Some HDead =>      (* an exhausted generator: StopIteration at once, nothing runs *)
+                SCont (Done CNormal) (mkAct k (set_opt x VNone env) (a_closing cur)) rest hs [Enter h]
             | Some (HLive p) =>
                 hole_outcome (hres p (Send VNone)) x h cur k rest hs [Enter h; Call h (Send VNone)]
             | Some (HFun f) =>
